@@ -253,6 +253,11 @@ func c10Hostile(target string) []c10Doc {
 			d("time-formats", `{"id":"1","created_at":"9999-99-99T99:99:99Z","account":{"created_at":"0000-00-00T00:00:00+99:99"}}`),
 			d("html-deep", "<html><body>"+c10Rep("<div>", 8000)+`<script type="application/json">`+c10Rep("[", 9000)+"</script>"),
 			d("stream", `{"id":"1"}{"id":"2"}[`),
+			// the untyped fields of a status (card, group, quote, in_reply_to, reblog, poll) embed a status-like object
+			// whose arrays hold elements of every JSON kind and whose members have the wrong kinds
+			d("untyped-embedded", `{"id":"1"`+c10Embedded([]string{"card", "group", "quote", "in_reply_to", "reblog", "poll"},
+				`{"id":7,"url":[],"media_attachments":[null,"x",3,true,[],{"external_video_id":7},{"external_video_id":null},{"external_video_id":"v","meta":[]}],"account":"a","mentions":[null],"options":[null,1]}`)+`}`),
+			d("untyped-embedded-kinds", `{"id":"1","reblog":{"media_attachments":{"0":null}},"quote":{"media_attachments":"x"},"card":[null],"group":3,"in_reply_to":"x","poll":true}`),
 		}
 	case "ina":
 		return []c10Doc{
@@ -483,6 +488,15 @@ func c10NaturalChainCases(withHostile bool) []c10Case {
 			}
 			out = append(out, v)
 		}
+	}
+	return out
+}
+
+// c10Embedded renders `,"k":doc` for every key.
+func c10Embedded(keys []string, doc string) string {
+	out := ""
+	for _, k := range keys {
+		out += `,"` + k + `":` + doc
 	}
 	return out
 }
